@@ -16,7 +16,7 @@ COMBOS = [(t, p) for t in ("typing.direct", "typing.root", "typing.310") for p i
 def behave(root):
     try:
         p = subprocess.run([common.PY, os.path.join(common.VERIF, "harness", "behave.py"), root, common.REPO + "/src"], stdout=subprocess.PIPE,
-                           stderr=subprocess.PIPE, text=True, timeout=120, env=dict(os.environ, PYTHONDONTWRITEBYTECODE="1"))
+                           stderr=subprocess.PIPE, text=True, timeout=900, env=dict(os.environ, PYTHONDONTWRITEBYTECODE="1"))
         return json.loads(p.stdout)
     except Exception as ex:
         return {"import": "behave crashed: " + type(ex).__name__, "classes": {}, "errors": []}
